@@ -696,3 +696,60 @@ func vInitialValuesComputed() (int, []string) {
 //@   modifies anything
 //@   requires c != nil
 //@   call newComputedStyle#1 assert[same-context] arg0 == c.parentStyle && arg1 == c.cascaded && arg2 == c.element && arg3 == c.pseudoType && arg4 == c.rootStyle && arg5 == c.baseUrl && arg6 == c.textContext
+
+// bounded stand-in (C03, "order of appearance: later wins, across ... nested rules"): a style rule body is a
+// sequence of declarations and nested rules; each nested rule takes its place in the order of appearance where it
+// is written (css-nesting-1: `&` is :is(<parent selector>)). vNestedOrder computes the width of <p class="a"> for
+// every body of one to four items among a declaration, a nested `& { }` rule (same specificity as the parent) and
+// a nested `&.a { }` rule (one class more), and compares it with the cascade worked out by hand: the most
+// specific item wins, the LAST one among equals.
+func vNestedOrder() (n int, fails []string) {
+	logger.WarningLogger.SetOutput(io.Discard)
+	defer logger.WarningLogger.SetOutput(os.Stdout)
+	logger.ProgressLogger.SetOutput(io.Discard)
+	defer logger.ProgressLogger.SetOutput(os.Stdout)
+	kinds := []struct {
+		text        string
+		specificity int
+	}{{"width: %dpx;", 1}, {"& { width: %dpx }", 1}, {"&.a { width: %dpx }", 2}}
+	var rec func(items []int)
+	rec = func(items []int) {
+		if len(items) > 0 {
+			n++
+			body, want, best := "", 0, 0
+			for i, k := range items {
+				body += fmt.Sprintf(kinds[k].text, i+1) + " "
+				if kinds[k].specificity >= best {
+					best, want = kinds[k].specificity, i+1
+				}
+			}
+			src := "<style>p { " + body + "}</style><p class=\"a\"></p>"
+			page, err := NewHTML(utils.InputString(src), "", nil, "")
+			if err != nil {
+				fails = append(fails, src+": "+err.Error())
+				return
+			}
+			styleFor := GetAllComputedStyles(page, nil, false, nil, nil, nil, nil, false, nil)
+			it := page.Root.Iter()
+			for it.HasNext() {
+				if e := it.Next(); e.Data == "p" {
+					got := styleFor.Get((*utils.HTMLNode)(e), "").GetWidth()
+					if (got.Value != pr.Float(want) || got.Unit != pr.Px) && len(fails) < 6 {
+						fails = append(fails, fmt.Sprintf("%s: width %v, expected %dpx", src, got, want))
+					}
+				}
+			}
+		}
+		if len(items) == 4 {
+			return
+		}
+		for k := range kinds {
+			rec(append(items, k))
+		}
+	}
+	rec(make([]int, 0, 4))
+	return n, fails
+}
+
+//@ bounded vNestedOrder the computed width of an element for every style rule body of one to four items among a declaration, a nested `&` rule and a nested `&.a` rule (120 bodies), against the cascade by specificity then order of appearance
+//@   props C03
